@@ -274,9 +274,9 @@ func runCheck(prop, tier string, repo, hdir string, jobs int, seed int64) int {
 			// default exploration deadline: a check never runs away, also on a
 			// broken tree; hitting it is reported as an exhausted budget (exit 2
 			// unless a violation was already reproduced)
-			ts.TimeoutS = 300
+			ts.TimeoutS = 900
 			if tier == "thorough" {
-				ts.TimeoutS = 2400
+				ts.TimeoutS = 3000
 			}
 		}
 		cfg.Deadline = time.Now().Add(time.Duration(ts.TimeoutS) * time.Second)
